@@ -944,6 +944,9 @@ func congruenceAxioms(apps []appRec) []*Term {
 				}
 				cg := mkImplies(mkAnd(eqs...), mkEq(l[i].res, l[j].res))
 				registerDef(cg, l[i].res, l[j].res)
+				if _, ok := axiomDefines[cg.id]; ok && len(axiomDefines[cg.id]) == 2 {
+					axiomNeedsAll[cg.id] = true
+				}
 				out = append(out, cg)
 			}
 		}
